@@ -577,21 +577,27 @@ func (s *Translator) Exit(expression cypher.SyntaxNode) {
 	case *cypher.Disjunction:
 		for idx := 0; idx < typedExpression.Len()-1; idx++ {
 			if err := s.treeTranslator.CompleteBinaryExpression(s.scope, pgsql.OperatorOr); err != nil {
+				// The operand stack is no longer consistent; stop here instead of popping further
 				s.SetError(err)
+				break
 			}
 		}
 
 	case *cypher.ExclusiveDisjunction:
 		for idx := 0; idx < typedExpression.Len()-1; idx++ {
 			if err := s.treeTranslator.CompleteBinaryExpression(s.scope, pgsql.OperatorNotEquals); err != nil {
+				// The operand stack is no longer consistent; stop here instead of popping further
 				s.SetError(err)
+				break
 			}
 		}
 
 	case *cypher.Conjunction:
 		for idx := 0; idx < typedExpression.Len()-1; idx++ {
 			if err := s.treeTranslator.CompleteBinaryExpression(s.scope, pgsql.OperatorAnd); err != nil {
+				// The operand stack is no longer consistent; stop here instead of popping further
 				s.SetError(err)
+				break
 			}
 		}
 
